@@ -75,6 +75,28 @@ def num(x):
     return x
 
 
+class _Explicit:
+    """Iterate `stream` the explicit way: the iterator object is kept (here: as an attribute of an object the consumer's
+    frame refers to) and every step awaits its __anext__().  Semantically the same as a plain `async for`."""
+    def __init__(self, stream):
+        self.it = stream.__aiter__()
+
+    def __aiter__(self):
+        return self
+
+    def __anext__(self):
+        return self.it.__anext__()
+
+
+def _drop(x):
+    return [x]
+
+
+def first_inline(box):
+    # hands the only reference to the iterator over to the `async for` statement
+    return box.pop()
+
+
 class Interp:
     def __init__(self, prog, shared=None):
         self.prog = prog
@@ -515,7 +537,10 @@ class Interp:
                     # (a plain `async for`: awaiting __anext__() by hand changes how CPython
                     #  finalises the async generator when the activity is closed)
                     ev(name, idx, 'get_begin')              # each wait of the iteration is logged
-                    async for v in s:
+                    source = s
+                    if st.get('explicit'):
+                        source = _Explicit(s)       # `it = aiter(s)` kept in a variable, `await anext(it)` per step
+                    async for v in source:
                         ev(name, idx, 'got', v)
                         cnt += 1
                         if cnt == 1 and st.get('body'):
@@ -646,8 +671,11 @@ class Interp:
                 kw['count'] = st['count']
             cnt = 0
             acts = [self.activity(a) for a in st['acts']]
+            results = first(*acts, **kw)          # (the iterator object stays referenced by this frame when 'keep' is set)
+            if not st.get('keep'):
+                results = _drop(results)
             try:
-                async for v in first(*acts, **kw):
+                async for v in (results if st.get('keep') else first_inline(results)):
                     ev(name, idx, 'got', v)
                     cnt += 1
                     if st.get('gap'):
